@@ -182,9 +182,196 @@ pub fn run_wire(ctx: &Ctx) {
         }
     }
     enumerate(ctx, "wire-consecutive-losses", &cases, false, |c, o| dirs.with(|d| judge(d, c, o)));
+    let relay = relay_cases(ctx.tier == Tier::Thorough);
+    enumerate(ctx, "wire-tftpc-through-lossy-relay", &relay, false, |c, o| dirs.with(|d| judge_relay(d, c, o)));
 }
 
 pub fn replay(ctx: &Ctx, part: &str, case: &Value) -> bool {
     let dirs = DirPool::new(ctx, "c04w");
+    if part == "wire-tftpc-through-lossy-relay" {
+        return replay_one(ctx, part, case, |c: &RelayCase, o| dirs.with(|d| judge_relay(d, c, o)));
+    }
     replay_one(ctx, part, case, |c: &Case, o| dirs.with(|d| judge(d, c, o)))
+}
+
+// ---------------------------------------------------------------------------------------------
+// The real tftpc against the real tftpd through a lossy UDP relay (single-port server, so that the relay needs
+// exactly one socket towards the server): the bundled client sets its own socket timeouts, which no simulated
+// socket can see.
+
+#[derive(Clone, Debug, Serialize, Deserialize)]
+pub struct RelayCase {
+    pub upload: bool,
+    /// drop the n-th datagram (0-based) travelling from the server to the client / from the client to the server
+    pub drop_to_client: Vec<u32>,
+    pub drop_to_server: Vec<u32>,
+    pub blk: u32,
+    pub ws: u16,
+    pub len: usize,
+}
+
+fn run_relay(dir: &Path, c: &RelayCase) -> Result<(), (String, String)> {
+    use std::net::UdpSocket;
+    use std::process::{Command, Stdio};
+    let root = dir.join("c04r");
+    let _ = std::fs::remove_dir_all(&root);
+    let sdir = root.join("srv");
+    let cdir = root.join("cli");
+    std::fs::create_dir_all(&sdir).unwrap();
+    std::fs::create_dir_all(cdir.join("out")).unwrap();
+    let data = content(404, c.len);
+    if c.upload {
+        std::fs::write(cdir.join("f.bin"), &data).unwrap();
+    } else {
+        std::fs::write(sdir.join("f.bin"), &data).unwrap();
+    }
+    let args = vec![wire::s("-d"), sdir.to_string_lossy().to_string(), wire::s("-s")];
+    let mut srv = match Server::start(&args, &root) {
+        Ok(s) => s,
+        Err(StartError::Exited(code, e)) => return Err(("harness".into(), format!("tftpd exited at start-up with {}: {}", code, e))),
+        Err(StartError::Harness(e)) => return Err(("harness".into(), e)),
+    };
+    // relay: client <-> front, back <-> server
+    let front = UdpSocket::bind("127.0.0.1:0").map_err(|e| ("harness".to_string(), e.to_string()))?;
+    let back = UdpSocket::bind("127.0.0.1:0").map_err(|e| ("harness".to_string(), e.to_string()))?;
+    let front_port = front.local_addr().unwrap().port();
+    front.set_read_timeout(Some(Duration::from_millis(5))).unwrap();
+    back.set_read_timeout(Some(Duration::from_millis(5))).unwrap();
+    let mut cargs = vec![wire::s("f.bin"), wire::s("-i"), wire::s("127.0.0.1"), wire::s("-p"), front_port.to_string(), wire::s("-b"), c.blk.to_string(), wire::s("-w"), c.ws.to_string(), wire::s("-t"), wire::s("1")];
+    if c.upload {
+        cargs.push(wire::s("-u"));
+    } else {
+        cargs.push(wire::s("-d"));
+        cargs.push(wire::s("-rd"));
+        cargs.push(wire::s("out"));
+    }
+    let err_p = cdir.join("tftpc.err");
+    let mut child = Command::new(wire::bindir().join("tftpc"))
+        .args(&cargs)
+        .current_dir(&cdir)
+        .stdin(Stdio::null())
+        .stdout(Stdio::null())
+        .stderr(std::fs::File::create(&err_p).unwrap())
+        .spawn()
+        .map_err(|e| ("harness".to_string(), format!("cannot spawn tftpc: {}", e)))?;
+    let t0 = Instant::now();
+    let mut client_addr = None;
+    let (mut n_to_client, mut n_to_server) = (0u32, 0u32);
+    let mut dropped = 0;
+    let mut buf = vec![0u8; 65536];
+    let mut exited_at: Option<Instant> = None;
+    loop {
+        if let Ok((n, from)) = front.recv_from(&mut buf) {
+            client_addr = Some(from);
+            let k = n_to_server;
+            n_to_server += 1;
+            if c.drop_to_server.contains(&k) {
+                dropped += 1;
+            } else {
+                let _ = back.send_to(&buf[..n], srv.addr);
+            }
+        }
+        if let Ok((n, _)) = back.recv_from(&mut buf) {
+            if let Some(ca) = client_addr {
+                let k = n_to_client;
+                n_to_client += 1;
+                if c.drop_to_client.contains(&k) {
+                    dropped += 1;
+                } else {
+                    let _ = front.send_to(&buf[..n], ca);
+                }
+            }
+        }
+        if exited_at.is_none() {
+            if let Ok(Some(_)) = child.try_wait() {
+                exited_at = Some(Instant::now());
+            }
+        }
+        // keep relaying a little after the client left (the server's last datagrams), then stop
+        if let Some(t) = exited_at {
+            if t.elapsed() > Duration::from_millis(150) {
+                break;
+            }
+        }
+        if t0.elapsed() > Duration::from_secs(25) {
+            let _ = child.kill();
+            let _ = child.wait();
+            return Err(("client-hung".into(), format!("tftpc did not finish within 25 s ({} datagrams dropped by the relay)", dropped)));
+        }
+    }
+    let cerr = std::fs::read_to_string(&err_p).unwrap_or_default();
+    let serr = srv.stderr_tail();
+    let got = if c.upload { std::fs::read(sdir.join("f.bin")).ok() } else { std::fs::read(cdir.join("out").join("f.bin")).ok() };
+    let alive = srv.exit_status().is_none();
+    drop(srv);
+    let _ = std::fs::remove_dir_all(&root);
+    if !alive {
+        return Err(("server-terminated".into(), "tftpd exited".into()));
+    }
+    if dropped as usize != c.drop_to_client.len() + c.drop_to_server.len() {
+        // the transfer ended before the planned datagram existed: nothing was lost, nothing to judge beyond completion
+    }
+    if got.as_deref() != Some(&data[..]) {
+        return Err((
+            "transfer-failed-after-few-losses".into(),
+            format!(
+                "{} of {} bytes through a relay that dropped {} datagram(s) (to client {:?}, to server {:?}; negotiated timeout 1 s, retry budget 6): the receiving side holds {:?} bytes after {:?}; tftpc stderr {:?}; tftpd stderr {}",
+                if c.upload { "upload" } else { "download" },
+                data.len(),
+                dropped,
+                c.drop_to_client,
+                c.drop_to_server,
+                got.map(|g| g.len()),
+                t0.elapsed(),
+                cerr.trim(),
+                serr
+            ),
+        ));
+    }
+    Ok(())
+}
+
+pub fn judge_relay(dir: &Path, c: &RelayCase, obs: &mut Obs) -> Judge {
+    obs.class(if c.upload { "relay-upload" } else { "relay-download" });
+    obs.nontrivial = !c.drop_to_client.is_empty() || !c.drop_to_server.is_empty();
+    let r = match run_relay(dir, c) {
+        Err((sig, d)) if sig != "harness" => match run_relay(dir, c) {
+            Ok(()) => {
+                obs.inconclusive = Some(format!("failed once ({}: {}), passed on the isolated re-run", sig, d));
+                Ok(())
+            }
+            other => other,
+        },
+        other => other,
+    };
+    match r {
+        Ok(()) => Ok(()),
+        Err((sig, d)) if sig == "harness" => {
+            obs.inconclusive = Some(d);
+            Ok(())
+        }
+        Err((sig, d)) => viol!(format!("relay-{}", sig), "{} | {:?}", d, c),
+    }
+}
+
+pub fn relay_cases(thorough: bool) -> Vec<RelayCase> {
+    let mut out = vec![];
+    for upload in [false, true] {
+        // the handshake is never dropped (outside C04). download: to_server 0 = RRQ, 1 = ACK 0 (reply to the OACK), 2.. = ACKs of data;
+        // to_client 0 = OACK, 1.. = DATA. upload: to_server 0 = WRQ, 1.. = DATA; to_client 0 = OACK, 1.. = ACKs of data
+        // single losses only: the bundled client retransmits on a fixed 5 s timer while its receive timeout follows -t, so with
+        // -t 1 a second loss that hits the retransmission means 6 consecutive failed receive attempts - outside the property
+        let single: Vec<(Vec<u32>, Vec<u32>)> = if upload {
+            vec![(vec![], vec![]), (vec![1], vec![]), (vec![2], vec![]), (vec![], vec![1]), (vec![], vec![2]), (vec![], vec![3])]
+        } else {
+            vec![(vec![], vec![]), (vec![1], vec![]), (vec![2], vec![]), (vec![3], vec![]), (vec![], vec![2]), (vec![], vec![3])]
+        };
+        for (tc, ts) in single {
+            out.push(RelayCase { upload, drop_to_client: tc.clone(), drop_to_server: ts.clone(), blk: 64, ws: 1, len: 64 * 5 + 7 });
+            if thorough {
+                out.push(RelayCase { upload, drop_to_client: tc, drop_to_server: ts, blk: 512, ws: 3, len: 512 * 7 });
+            }
+        }
+    }
+    out
 }
